@@ -46,6 +46,13 @@ CHECKS.update({
     "C05": dict(text="Panic and Hang events are never accepted in any driver: ring runs (all modes incl. faults and un-synchronised start), TLC-generated schedules of MC_FdlSingle replayed on the real station (every reachable model state to the emit depth, adversarial telegrams incl. addresses >125 and own address), random deep single-station walks, DP runs with 0..4 peripherals and random extended diagnostics; model: NoPanic invariant of MC_FdlSingle. Harness builds with debug assertions and overflow checks and a logger that formats every record.", note="Trusted: catch_unwind at the poll call site, 5 s watchdog for hangs, TLC. Byte-level random/mutational fuzzing is harness-driven (TLA+ supplies only the oracle 'no Panic/Hang').", technique="TLC model checking of FdlStation (NoPanic) + replay of TLC schedules on the real code + TLC trace validation of all driver logs", ref="6 C05"),
 })
 
+CALL_TECH = "TLA+ operator specification model-checked by TLC + TLC trace validation of recorded calls of the real code"
+CHECKS.update({
+    "C16": dict(text="RxPath.tla defines receive_telegram / receive_all_telegrams over a byte buffer with the normative decoder; TLC (MC_RxPath) explores all chunkings and call interleavings for all sequences of <= 2/3 telegrams (order, each once, is_last, nothing lost); sessions of the real helpers over the harness PHY and the repository's SimulatorPhy (random chunks 1..300 bytes, junk injections) are validated call by call (C16.order/last/keep/deliver, exact model conformance).", note="Trusted: TLC, Codec.tla as decoder, harness bookkeeping of what was sent (rx.rs). Telegram contents random; chunkings exhaustive only in the model.", technique=CALL_TECH, ref="6 C16"),
+    "C17": dict(text="Diag.tla defines the 6-byte standard part, storing of extended diagnostics and the block iterator as a cursor machine; TLC (MC_Diag) checks termination, blocks inside the buffer, consecutive, stop at first malformed block for all strings up to 4/5 bytes over a header alphabet; the real code is driven through the public DP path (DpMaster as FdlApplication) with all 1-byte and (delimiter-first / all) 2-byte extension strings, all header bytes with structured tails, random PDUs, buffer sizes 0..244, two replies per master (stale data), Debug formatting, and the DP scanner; every record is validated by TLC.", note="Trusted: TLC, harness mapping of ChannelDataType/ChannelError enums (diag.rs). The permanent bit is masked in the flag comparison (documented behaviour).", technique=CALL_TECH, ref="6 C17"),
+    "C20": dict(text="Prm.tla defines the normative packing (big-endian two's complement, bit / bit-area masks, constants overlaid by defaults, constraint and type-range acceptance); TLC proves the frame lemma for every byte value x bit / bit-area position x value and the integer lemma at boundary values (MC_Prm); PrmBuilder::new / set_prm / set_prm_from_text of the real crate are recorded on random layouts (overlapping bit fields, constants underneath, duplicate names, texts) with in-range, boundary and out-of-range values and validated by TLC (C20.build/field/frame/range/error). 64-bit values travel as 16-bit limbs.", note="Trusted: TLC, harness construction of UserPrmData from public fields (prm.rs). Known finding F9 (BitArea whole-byte write) is recognised by an exact emulation and reported as KNOWN-FINDING.", technique=CALL_TECH, ref="6 C20"),
+})
+
 ALL = ["C%02d" % i for i in range(1, 21)]
 
 
